@@ -563,9 +563,10 @@ def gen_c16(rnd, n, thorough=False):
                     to = 'file'
             if sub in ('copy', 'sumcopy'):
                 written[sub] = True
-            if to == 'full' and sub in ('copy', 'sumcopy') and not (srckind != 'ok' or destkind == 'mismatch'):
+            if to == 'full' and ((sub == 'copy' and not (srckind != 'ok' or destkind == 'mismatch')) or sub == 'sumcopy'):
                 # the report must be clearly shorter or clearly longer than the 4096-byte buffer
-                if dense and destkind in ('missing', 'fresh'):
+                # (sum-copy reads a.wsp and b.wsp and writes e/i1/sum.wsp whatever srckind / destkind say)
+                if dense and (sub == 'sumcopy' or destkind in ('missing', 'fresh')):
                     wk, frm, until, arch = 'default', '0', '0', -1        # hundreds of records
                 else:
                     wk, frm, until = 'narrow', '@-3', '@-1'                # a handful of records
